@@ -46,6 +46,11 @@ type requestContext struct {
 
 func (r *requestContext) Finalize(_ rule.Backend) error {
 	if err := r.PipelineError(); err != nil {
+		// a challenge set by an error handler belongs to the error response
+		if challenge := r.UpstreamHeaders().Values("WWW-Authenticate"); len(challenge) != 0 {
+			r.rw.Header()["WWW-Authenticate"] = challenge
+		}
+
 		return err
 	}
 
